@@ -25,7 +25,7 @@ def tree(root):
 def run(tier, seed, replay=None):
     res = C.Result("C20", tier, seed)
     res.rule = ("the warcraft-rs binary built from the working tree: (A) mpq create (v1..v4 x none/zlib/bzip2/lzma x listfile) then mpq extract (all / explicit names incl. missing ones, "
-                "threads, preserve-paths, skip-errors): files on disk must equal the inputs and the exit status and file set must equal the model's outcome computed from the "
+                "threads, preserve-paths, skip-errors; into an empty directory or over stale files of the same length): files on disk must equal the inputs and the exit status and file set must equal the model's outcome computed from the "
                 "library's answers; (B) mpq extract / validate on archives with hostile names and with files that no longer read: exit status, error count and written files against "
                 "the model; mpq list / info against Archive::list / get_info; (C) every sub-command of every format family that takes an input file, on empty, random, "
                 "truncated and bit-flipped inputs: never exit 0 on garbage that the library rejects, never die by a signal, and an exit status 0 of a converting command means the "
@@ -63,7 +63,7 @@ def run(tier, seed, replay=None):
                 f.write(dta)
         opts = {"version": r.choice(["v1", "v2", "v3", "v4"]), "compression": r.choice(["none", "zlib", "bzip2", "lzma"]), "listfile": i % 4 != 3}
         ex = {"threads": r.choice([None, 1, 4]), "preserve": r.choice([False, True]), "skip": r.choice([False, False, True]),
-              "names": r.choice([None, None, "some", "with-missing"])}
+              "names": r.choice([None, None, "some", "with-missing"]), "stale": i % 2 == 1}
         jobsA.append((d, files, opts, ex))
 
     def doA(job):
@@ -89,6 +89,13 @@ def run(tier, seed, replay=None):
             xa.append("--skip-errors")
         rc2, o2, e2 = (None, "", "")
         if rc1 == 0:
+            if ex["stale"]:
+                # an earlier extraction left files of the same length but other content at the targets
+                os.makedirs(os.path.join(d, "out"), exist_ok=True)
+                for nm in (req if req is not None else sorted(files)):
+                    if nm in files:
+                        with open(os.path.join(d, "out", nm), "wb") as f:
+                            f.write(bytes(b ^ 0xff for b in files[nm]))
             rc2, o2, e2 = runcli(cli, xa)
         return rc1, (o1 + e1)[-300:], rc2, (o2 + e2)[-400:], req, tree(os.path.join(d, "out")) if os.path.isdir(os.path.join(d, "out")) else {}, args, xa
 
